@@ -130,6 +130,10 @@ func (s *Solver) Assert(defs, expr string) {
 // OneShot solves pathLog ∧ assume in a fresh non-incremental solver process (z3's
 // non-incremental pipeline preprocesses much more aggressively than its push/pop core).
 func (s *Solver) OneShot(assume []string, wantModel bool, vars []string, timeoutMs int) (SatResult, map[string]string, string) {
+	return s.OneShotWith(s.kind, assume, wantModel, vars, timeoutMs)
+}
+
+func (s *Solver) OneShotWith(kind SolverKind, assume []string, wantModel bool, vars []string, timeoutMs int) (SatResult, map[string]string, string) {
 	s.NOneShot++
 	var sb strings.Builder
 	sb.WriteString("(set-option :produce-models true)\n")
@@ -148,11 +152,11 @@ func (s *Solver) OneShot(assume []string, wantModel bool, vars []string, timeout
 		}
 	}
 	bin := "z3-new"
-	if s.kind == SZ3 {
+	if kind == SZ3 {
 		bin = "z3"
 	}
 	var cmd *exec.Cmd
-	if s.kind == SCVC5 {
+	if kind == SCVC5 {
 		cmd = exec.Command("cvc5", "--lang=smt2", "--produce-models", fmt.Sprintf("--tlimit=%d", timeoutMs))
 		sb2 := "(set-logic ALL)\n" + sb.String()
 		cmd.Stdin = strings.NewReader(sb2)
